@@ -477,7 +477,7 @@ func asmObligations(st *Symtab, path string) ([]*Obligation, []string, error) {
 		}
 		notes = append(notes, fmt.Sprintf("%s: %d instructions, %d paths", f.name, len(f.instrs), len(paths)))
 		// evaluate the contract over a state whose byte heap holds the 16 key bytes
-		ex := &Exec{prog: p, st: st, mode: ModeBV, layouts: NewLayouts(), heapSorts: map[string]string{}, bindings: map[string]types.Type{}, obN: map[string]int{}, opts: map[string]string{}, assignedHeaps: map[string]bool{}, fnName: f.name, layer: "A"}
+		ex := &Exec{prog: p, st: st, mode: ModeBV, layouts: NewLayouts(), heapSorts: map[string]string{}, bindings: map[string]types.Type{}, obN: map[string]int{}, opts: map[string]string{}, assignedHeaps: map[string]bool{}, callAssumesUsed: map[string]bool{}, caseLabels: map[string]string{}, fnName: f.name, layer: "A"}
 		s := &State{pcSet: map[string]bool{}, heap: map[string]Term{}, cells: map[int]Value{}, names: map[string]Value{}, ghost: map[string]Value{}}
 		kobj := st.Fresh("asm.keysobj", SRef)
 		for i := 0; i < 16; i++ {
